@@ -20,6 +20,8 @@ package confutil
 //@ ensures [needs-file-and-key] imp(len(result_of(strings.SplitN, 0)) != 2, result1 != nil)
 //@ at call strings.SplitN#0 assert [file-and-key] arg(a0) == in0 && arg(a1) == "#" && arg(a2) == 2
 //@ at call os.Open assert [the-named-file] arg(a0) == result_of(strings.SplitN, 0)[0]
+//@ at call strings.SplitN#1 assert [a-line-is-key-equals-value-split-at-the-first-equals-sign] arg(a0) == line && arg(a1) == "=" && arg(a2) == 2
+//@ ensures [the-value-of-exactly-that-key] imp(result1 == nil, calls(strings.SplitN) >= 2 && len(result_of(strings.SplitN, 0)) == 2 && result_of(strings.SplitN, 0)[0] == property && result0 == result_of(strings.SplitN, 0)[1])
 
 // ${env:NAME}: an unset variable is an error.
 //@ func envTokenResolver
